@@ -1,6 +1,7 @@
 (* C08  Loop and source handles are safely re-entrant from inside callbacks. *)
 From CV Require Import Base Consts Token PostAction Env Loop.
 From CVP Require Import Loop_frames Seq_lemmas C08_proofs C09_proofs.
+From CVP Require Import C08_cause.
 Open Scope N_scope.
 
 (* In ANY state - in particular while a callback or an idle is running - an operation only panics if it is one of the
@@ -27,3 +28,18 @@ Proof. exact running_exec_action. Qed.
 Example C08_nonvacuous :
   excluded (set_running init (Some (1, mkTok 0 0 0))) (ASetDl 1 4%Z) /\ ~ excluded init (ADisable 1).
 Proof. split; [reflexivity|intros []]. Qed.
+
+(* What can make a batch fail (= dispatch() return Err): process_events stops with `false` only at an event whose processing panicked, whose
+   source reported an error from its own event processing, or whose post action asked for a (re/un)registration that failed IN THE SOURCE.
+   The post action is applied to the object the loop already holds, never through a new look-up of its token - so nothing a callback did
+   through the handle (disable / update / remove of itself, an insertion re-using its slot) can make the dispatch fail. *)
+Theorem C08_batch_fails_only_with_a_cause : forall scr evs s s', process_events scr s evs = (s', false) ->
+  exists s0 ev, In ev evs /\ fails_with_cause scr s0 ev s'.
+Proof. exact process_events_fail_only_with_cause. Qed.
+(* met by a real history: a callback disables and then removes its own source, and returns Continue; the dispatch returns Ok *)
+Example C08_disable_then_remove_self_is_harmless :
+  let scr := fun h => if h =? 1 then [mkScript [ADisable 1; ARemove 1] 0 0%Z] else [] in
+  let cmds := [CAct (AInsert 1 (SComp false None [mkGen 10 (mkInt true false) Level None false] None)); CAct (AFdWrite 10 1); CDispatch 0%Z []] in
+  halted (run scr (fun _ => []) cmds) = false /\ In (L T_DISP [0%Z; DISP_OK]) (trace_of (run scr (fun _ => []) cmds)) /\ Loop.cbn (run scr (fun _ => []) cmds) 1 = 1%nat.
+Proof. vm_compute. split; [reflexivity|split; [|reflexivity]]. repeat (first [left; reflexivity|right]). Qed.
+Print Assumptions C08_batch_fails_only_with_a_cause.
